@@ -68,7 +68,8 @@ def build(node, nm=None, use_terms=False, memo=None):
         return memo[id(node)]
     op = node["op"]
     if op == "table":
-        r = TableDescription(table_name=_tn(nm, node["name"]), column_names=_h([_n(nm, c) for c in node["cols"]]))
+        r = TableDescription(table_name=_tn(nm, node["name"]), column_names=_h([_n(nm, c) for c in node["cols"]]),
+                             qualifiers=node.get("qualifiers"))
         memo[id(node)] = r
         return r
     src = build(node["src"], nm, use_terms, memo)
@@ -113,7 +114,12 @@ def build(node, nm=None, use_terms=False, memo=None):
         kw = {}
         if node.get("check"):
             kw["check_all_common_keys_in_equi_spec"] = True
-        r = src.natural_join(right, on=_h(on), jointype=node["jointype"], **kw)
+        if node.get("check_by"):
+            kw["check_all_common_keys_in_by"] = True
+        if node.get("legacy_by"):
+            r = src.natural_join(right, by=_h(on), jointype=node["jointype"], **kw)
+        else:
+            r = src.natural_join(right, on=_h(on), jointype=node["jointype"], **kw)
     elif op == "concat_rows":
         right = build(node["right"], nm, use_terms, memo)
         idc = node.get("id_column")
